@@ -10,15 +10,23 @@ _g = {"__file__": os.path.join(os.path.dirname(__file__), "..", "C14", "spec.py"
 exec(compile(open(_g["__file__"]).read(), _g["__file__"], "exec"), _g)
 HARNESSES = []
 for h in _g["HARNESSES"]:
-    if h["name"] in ("resume_by_id", "invalidate", "clear", "register"):
+    if h["name"] in ("resume_by_id", "invalidate", "clear", "register") or h["name"].startswith("ticket_"):
         h2 = dict(h)
         h2["dir"] = "C14"
-        h2["name"] = "cache_" + h["name"]
+        h2["name"] = ("cache_" if not h["name"].startswith("ticket_") else "") + h["name"]
         h2["cases"] = [c for c in h["cases"] if c.get("tier", "quick") == "quick"]
         HARNESSES.append(h2)
+HARNESSES.append(dict(
+    name="eph_cache", src="eph_cache.c", checks=[],
+    guards={"matrixssl/matrixsslKeys.c": {"->cache.eccPrivKey": "keys->cache.lock", "->cache.eccPrivKeyUse": "keys->cache.lock",
+                                          "->cache.eccPrivKeyTime": "keys->cache.lock"}},
+    units=[], functions=["matrixSslGenEphemeralEcKey"], sources=["matrixssl/matrixsslKeys.c"],
+    assumptions=["eph_cache: psEccGenKey/psEccCopyKey/psEccClearKey are logging stubs with arbitrary success/failure; psDiffMsecs returns an arbitrary non-negative elapsed time; cache RI: eccPrivKeyUse == 0 <=> no key allocated"],
+    unwindset={"vf_is_held:/for \\(i = 0/": 5},
+    cases=[dict(name="any_state", defs={})]))
 PROPERTY = dict(level='other',
     claim='Lock discipline of the session cache operations for all inputs and paths: every access to g_sessionTable / g_sessionChronList happens under g_sessionTableLock, one critical section per operation, no relock, no nested locks, lock released on every return - a sufficient condition for race freedom and serializability of these operations.',
-    bounds='matrixRegisterSession, matrixResumeSession, matrixUpdateSession, matrixClearSession',
-    outside='interleavings cannot be encoded (CBMC aborts on this code with concurrency); ticket-key list, ephemeral ECDHE key cache, PRNG and CRL cache are not yet instrumented',
+    bounds='matrixRegisterSession, matrixResumeSession, matrixUpdateSession, matrixClearSession; matrixUnlockSessionTicket, matrixCreateSessionTicket, matrixSslLoadSessionTicketKeys, matrixSslDeleteSessionTicketKey (key list / inUse under g_sessTicketLock); matrixSslGenEphemeralEcKey (cached ECDHE key under keys->cache.lock, reuse within usage/lifetime limits, caller gets a private copy)',
+    outside='interleavings cannot be encoded (CBMC aborts on this code with concurrency); PRNG and CRL cache are not instrumented',
     explanation='Sequential lockset check decided by CBMC: derive.py wraps every textual use of the shared objects with a guard that asserts the designated mutex is held (ghost lock state in psLockMutex/psUnlockMutex stubs); assertions cover all paths of each operation from an arbitrary table state.',
     assumptions=[])
